@@ -182,6 +182,14 @@ mod macros;
 pub mod field;
 pub mod filter;
 pub mod prelude;
+
+// Declared after `filter` on purpose: `filter::subscriber_filters` imports
+// `std::thread_local` by name, which must not meet the shadowing macro.
+#[cfg(all(tracing_verif, feature = "std"))]
+#[macro_use]
+#[doc(hidden)]
+pub mod __verif;
+
 pub mod registry;
 
 pub mod subscribe;
